@@ -70,9 +70,12 @@ def rmEntry (seq : Nat) (b e : Int) (x : Entry) : Option Entry :=
     else some x
   else some x
 
+/-- some sequence other than `seq` owns it too -/
+def sharedOther (seq : Nat) (seqs : List Nat) : Bool := seqs.any (· ≠ seq)
+
 /-- an entry that would have to shift although another sequence still owns it -/
 def mustRefuse (seq : Nat) (b e : Int) (x : Entry) : Bool :=
-  decide (seq ∈ x.seqs) && !(decide (b ≤ x.pos ∧ x.pos < e)) && decide (x.pos ≥ e) && x.seqs.any (· ≠ seq)
+  decide (seq ∈ x.seqs) && !(decide (b ≤ x.pos ∧ x.pos < e)) && decide (x.pos ≥ e) && sharedOther seq x.seqs
 
 /-- `Remove`: `none` = refused (a shared entry would have to shift) -/
 def remove (s : Spec) (seq : Nat) (b e : Int) : Option Spec :=
